@@ -14,6 +14,9 @@ pub fn run_cli_flags(args: &Args, property: &str) -> Report {
         rep.evaluations = 0;
         return rep;
     }
+    let model = Model::new(&args.model, &args.work);
+    // (argv as run, request to the Lean model of the flag mapping, configuration the library was run with)
+    let mut mapping: Vec<(String, String, String)> = vec![];
     let mut rng = Rng::new(args.seed.wrapping_mul(31).wrapping_add(args.shard as u64).wrapping_add(0xC11));
     let n = (if args.thorough() { 600 } else { 60 }) / args.shards.max(1);
     let dir = args.work.join(format!("cli-{}-{}", std::process::id(), args.shard));
@@ -148,6 +151,27 @@ pub fn run_cli_flags(args: &Args, property: &str) -> Report {
         let out = c.output().expect("cli");
         let (after, meta_after) = snapshot(&pb);
         rep.evaluations += 1;
+        {
+            // the parsed form of this command line, for the Lean model of `Cli::apply_to` (Model/Cli.lean)
+            let has = |v: &Vec<String>, a: &str, b: &str| v.iter().any(|x| x == a || x == b);
+            let t = |x: bool| if x { "t" } else { "f" };
+            let part = format!(
+                "{} {} {} {} {} {}",
+                t(has(&flags, "-q", "--quiet")),
+                t(has(&flags, "-v", "--verbose")),
+                t(has(&flags, "-r", "--recursive")),
+                cfg.threads,
+                t(has(&flags, "-n", "--no-trailing-newline")),
+                cfg.inputs.iter().map(|i| hexs(i)).collect::<Vec<_>>().join(",")
+            );
+            let req = match sub {
+                None => format!("cli none {} {part} f f f 4 f -", t(has(&flags, "-N", "--needed"))),
+                Some(sc) => format!("cli {sc} {} f f f 4 f - {part}", t(has(&top, "-N", "--needed"))),
+            };
+            let verb_s = if has(&flags, "-q", "--quiet") { "q" } else if has(&flags, "-v", "--verbose") { "v" } else { "n" };
+            let ran = format!("{} {} {} {} {} {}", cfg.mode, t(cfg.trailing), t(cfg.recursive), cfg.threads, verb_s, cfg.inputs.iter().map(|i| hexs(i)).collect::<Vec<_>>().join(","));
+            mapping.push((format!("{} {} {} {:?}", top.join(" "), sub.unwrap_or(""), flags.join(" "), cfg.inputs), req, ran));
+        }
         rep.sigs.insert(format!("variant{variant}|{}|rec={}", lib.verdict, cfg.recursive));
         let cli_ok = out.status.success();
         let mut bad: Option<String> = None;
@@ -169,6 +193,18 @@ pub fn run_cli_flags(args: &Args, property: &str) -> Report {
         }
         if i == 0 {
             rep.sample(format!("CLI `{} {} {:?}` vs library {} => exit ok={cli_ok}, verdict {}", sub.unwrap_or(""), flags.join(" "), cfg.inputs, cfg.describe(), lib.verdict));
+        }
+    }
+    // the configuration the library ran with must be the one the Lean model of the flag mapping computes for the command line
+    let reqs: Vec<String> = mapping.iter().map(|m| m.1.clone()).collect();
+    for ((argv, _, ran), resp) in mapping.iter().zip(model.batch(&reqs).iter()) {
+        rep.count("flag-mapping-vs-lean-model");
+        if resp.trim() != ran {
+            rep.violation(
+                "divergence",
+                &format!("{property}: flag mapping: for the command line `txtpp {argv}` the Lean model of Cli::apply_to gives the configuration `{}`, the library was run with `{ran}` (mode trailing recursive threads verbosity inputs)", resp.trim()),
+                &format!("# argv: {argv}\ncfg: build true false 1\n"),
+            );
         }
     }
     let _ = std::fs::remove_dir_all(&dir);
